@@ -38,21 +38,8 @@ def spec_selfcheck(ctx, gen, oracle, impls, n):
     for impl in impls:
         if not mapgen.FLAVOUR[impl]["ordered"] and gen is mapgen.gen_c18:
             continue     # the specification's iterators are the ordered ones
-        if mapgen.FLAVOUR[impl]["ordered"] == "signed":
-            # STOPGAP: the Lean Dict (`spec-trie`) sorts by Key.lt = strcmp (unsigned) order, the trie's
-            # promise is the signed-char order; the two coincide on keys with bytes < 0x80 only, so the
-            # self-check of the trie flavour is restricted to such cases until the Lean spec has a
-            # per-flavour order
-            got = []
-            for _ in range(40 * n):
-                if len(got) >= n:
-                    break
-                ops = gen(ctx.rng, "spec-" + impl)
-                if not mapgen.has_high_byte(ops):
-                    got.append(ops)
-            cases += [("s-%s-%d" % (impl, i), ops) for i, ops in enumerate(got)]
-            ctx.count("spec-selfcheck-trie-ascii-only", len(got))
-            continue
+        # the trie flavour (`spec-trie`) is the Lean Dict ordered by the signed-char byte order
+        # (Model/TrieSpec.lean: TrieDict), so high bytes are included
         cases += [("s-%s-%d" % (impl, i), gen(ctx.rng, "spec-" + impl)) for i in range(n)]
     if not cases:
         return
